@@ -591,6 +591,14 @@ func (g *vcgen) havocEvent(ev string) {
 		g.havockedEvents[ev] = true
 	}
 	g.eventVars(ev)
+	for _, e2 := range g.eng.sinceOf(ev) {
+		// occurrences of S inside the callee move the snapshot of since(E, S) forward by an unknown amount
+		sn := snapVar(e2, ev)
+		g.stateVar(sn, "Int")
+		old := g.get(g.st, sn)
+		nv := g.havocVar(sn)
+		g.assume(fmt.Sprintf("(>= %s %s)", nv, old))
+	}
 	cntBefore := g.get(g.st, "G.cnt."+ev)
 	g.havocNamed("G.first." + ev) // uses the counter and the clock as they are before the call
 	g.havocNamed("G.cnt." + ev)
@@ -2277,6 +2285,13 @@ func (g *vcgen) emitChanEventsVal(kind string, ch ssa.Value, cond string, sent s
 		g.set("G.now", fmt.Sprintf("(+ %s 1)", now))
 		nn := g.get(g.st, "G.now")
 		g.set("G.cnt."+ev.Name, fmt.Sprintf("(ite %s (+ %s 1) %s)", cond, cnt, cnt))
+		// since(E, S): an occurrence of S takes a snapshot of E's counter
+		for _, e2 := range g.eng.sinceOf(ev.Name) {
+			g.eventVars(e2)
+			sn := snapVar(e2, ev.Name)
+			g.stateVar(sn, "Int")
+			g.set(sn, fmt.Sprintf("(ite %s %s %s)", cond, g.get(g.st, "G.cnt."+e2), g.get(g.st, sn)))
+		}
 		g.set("G.first."+ev.Name, fmt.Sprintf("(ite (and %s (= %s %s)) %s %s)", cond, cnt, g.get(g.old0, "G.cnt."+ev.Name), nn, first))
 		g.set("G.last."+ev.Name, fmt.Sprintf("(ite %s %s %s)", cond, nn, last))
 	}
@@ -2537,6 +2552,13 @@ func (g *vcgen) emitEvents(c *ssa.CallCommon, args []string, results []string, r
 		g.set("G.now", fmt.Sprintf("(+ %s 1)", now))
 		nn := g.get(g.st, "G.now")
 		g.set("G.cnt."+ev.Name, fmt.Sprintf("(ite %s (+ %s 1) %s)", cond, cnt, cnt))
+		// since(E, S): an occurrence of S takes a snapshot of E's counter
+		for _, e2 := range g.eng.sinceOf(ev.Name) {
+			g.eventVars(e2)
+			sn := snapVar(e2, ev.Name)
+			g.stateVar(sn, "Int")
+			g.set(sn, fmt.Sprintf("(ite %s %s %s)", cond, g.get(g.st, "G.cnt."+e2), g.get(g.st, sn)))
+		}
 		// first(E): time of the first occurrence during this activation
 		g.set("G.first."+ev.Name, fmt.Sprintf("(ite (and %s (= %s %s)) %s %s)", cond, cnt, g.get(g.old0, "G.cnt."+ev.Name), nn, first))
 		g.set("G.last."+ev.Name, fmt.Sprintf("(ite %s %s %s)", cond, nn, last))
